@@ -93,6 +93,36 @@ def sig_arena_case(progs, prefix):
     return c
 
 
+REORDER_TAIL = [101, 102, 0, 1, 2] * 7
+
+
+def reorder_case(kinds, events):
+    """hand-driven single-thread event sequence; the tail completes and drains whatever is in flight"""
+    return [33, list(kinds), list(events) + REORDER_TAIL]
+
+
+def gen_reorder(rng):
+    n = rng.choice((2, 3))
+    kinds = [rng.choice((0, 1, 2)) for _ in range(n)]
+    ev = []
+    order = list(range(n))
+    rng.shuffle(order)
+    ev += order                                   # everybody parks during load 1
+    for _round in range(rng.choice((1, 2, 2, 3))):
+        block = [100] * rng.choice((0, 1, 1, 2)) + [101, 102]
+        if rng.random() < 0.3:
+            rng.shuffle(block)
+        ev += block
+        order = list(range(n))
+        rng.shuffle(order)                       # re-polled in a different order than they parked
+        if rng.random() < 0.4:
+            order = order[:rng.randint(1, n)]
+        ev += order
+        if rng.random() < 0.3:
+            ev.insert(rng.randint(0, len(ev)), rng.choice(order + [100, 102]))
+    return reorder_case(kinds, ev)
+
+
 def await_fresh_case(kinds, prefix):
     c = await_case(kinds, prefix)
     c[0] = 31
@@ -228,6 +258,16 @@ def generate(rng, tier):
     for kk in ((1, 1), (0, 2)):
         for sch in (allsch if thorough else rng.sample(allsch, 600)):
             yield dict(case=await_fresh_case(list(kk), sch), kind="await-fresh-waker")
+    # ---- 33. N awaiters re-polled in a different order around reloads (hand-driven, one thread)
+    import itertools as _it
+    for n in (2, 3):
+        for p1 in _it.permutations(range(n)):
+            for p2 in _it.permutations(range(n)):
+                for kinds in ([1] * n, [0, 2, 1][:n]):
+                    ev = list(p1) + [100, 101, 102] + list(p2) + [101, 102] + list(p1)
+                    yield dict(case=reorder_case(kinds, ev), kind="await-reorder", compare=False)
+    for _ in range(6000 if thorough else 1200):
+        yield dict(case=gen_reorder(rng), kind="await-reorder", compare=False)
     for sch in interleavings([5, 5]):
         yield dict(case=memo_chain_case([[[0, 2]], [[2]]], sch), kind="memo-chain", compare=False)
     allsch = list(interleavings([10, 5]))
@@ -290,6 +330,10 @@ def valid_case(item):
         if op in (23, 32):
             c3 = [3] + list(c[1:])
             return valid_case(dict(case=c3))
+        if op == 33:
+            n = len(c[1])
+            return len(c) == 3 and 2 <= n <= 3 and all(k in (0, 1, 2) for k in c[1]) and \
+                all(e in (100, 101, 102) or 0 <= e < 3 for e in c[2]) and c[2][-len(REORDER_TAIL):] == REORDER_TAIL
         if op == 31:
             return valid_case(dict(case=[1] + list(c[1:])))
         if op == 27:
@@ -357,6 +401,17 @@ def oracle(item, impl):
             return "final signal value %d is not the last write of any thread" % fin
         if not log or log[-1] != fin:
             return "the notified effect did not run after the last write (last saw %r, signal is %d)" % (log[-1:], fin)
+        return None
+    if op == 33:
+        aw, fin, started = impl
+        loads = [10 * (j + 1) for j in range(started)]
+        if fin not in loads:
+            return "the value %d is not the result of one of the %d loads" % (fin, started)
+        for i, (st, v, _p) in enumerate(aw):
+            if st != 1:
+                return "awaiter %d was never resumed although the value is ready (%d) (lost wake-up after a reload)" % (i, fin)
+            if v not in loads:
+                return "awaiter %d resumed with %d, which no load produced" % (i, v)
         return None
     if op == 32:
         fin_s, _fin_m2, sts, hang = impl
@@ -553,7 +608,7 @@ def nontrivial(item, model):
     if c[0] == 9:
         return True
     sched = c[-1]
-    if c[0] in (13, 15):
+    if c[0] in (13, 15, 33):
         return True
     if c[0] in (23, 32):
         c = [3] + list(c[1:])
@@ -567,7 +622,8 @@ def nontrivial(item, model):
     return switches >= 2
 
 
-NAMES = {31: "await path, fresh future and waker per poll", 32: "memo -> memo chain across threads",
+NAMES = {33: "N awaiters re-polled in another order around reloads (hand-driven)",
+         31: "await path, fresh future and waker per poll", 32: "memo -> memo chain across threads",
          23: "signal writes / memo pulls through arena handles", 27: "non-blocking try_write of a signal",
          29: "awaiter vs the start of a reload", 30: "effect disposed while its task is polled",
          18: "await vs a user's write guard",
@@ -634,7 +690,8 @@ LEVEL_TEXT = ("Coq proofs about executable protocol models transcribed from the 
               "machine-checked witness schedules for the code before the fixes and for the open design limitations; tied to /repo by "
               "running REAL threads through every enumerated interleaving of the named yield points and comparing the outcome of each "
               "interleaving with the extracted model, plus a model-independent oracle.")
-LEVEL_NOTE = ("Partial: protocol models under sequential consistency (no weak memory, no OS scheduling, no lock fairness); granularity = "
+LEVEL_NOTE = ("Scenarios 27, 29, 30, 32, 33 (try_write, awaiter vs reload start, effect disposal, memo chain, N awaiters re-polled "
+              "in another order around reloads) are judged by the oracle only, not compared with a model. Partial: protocol models under sequential consistency (no weak memory, no OS scheduling, no lock fairness); granularity = "
               "instrumented yield points; lock traces hand-mirrored; memo recomputation and the write's mark loop are not atomic across "
               "threads (F-C19-b, F-C19-d, F-C19-e listed as open design limitations).")
 TECHNIQUE = ("Coq proof (invariants over all schedules) of protocol models + exhaustive enumeration of interleavings on real threads "
